@@ -281,34 +281,34 @@ func toItem(s ItemSpec) cbsim.Item {
 }
 
 type session struct {
-	spec        *SessSpec
-	env         *hx.Env
-	cons        *hx.Consumer
-	md          *hx.MemMetadata
-	full        *hx.Full
-	vbLocks     []sync.Mutex
-	pmu         sync.Mutex
-	pending     []*hx.Delivered
-	acked       []*hx.Delivered
-	holdCh      chan struct{}
-	holdOnce    bool          // "holdsave" with N=1: only the next save that reaches the store is held
-	heldCh      chan struct{} // the gate that one save is waiting on
-	failSet     map[int]bool
-	bgWG        sync.WaitGroup
-	stormStop   chan struct{}
-	failNext    int32 // the next failNext saves of the mem back end are rejected (step "failnext")
-	tr          *Trace
-	rng         *rand.Rand
-	notifyCtr   int64
-	notifyWG    sync.WaitGroup
-	ehHolds     []chan struct{}
-	consHold    chan struct{}
-	obsFail     map[[2]int]string
+	spec      *SessSpec
+	env       *hx.Env
+	cons      *hx.Consumer
+	md        *hx.MemMetadata
+	full      *hx.Full
+	vbLocks   []sync.Mutex
+	pmu       sync.Mutex
+	pending   []*hx.Delivered
+	acked     []*hx.Delivered
+	holdCh    chan struct{}
+	holdOnce  bool          // "holdsave" with N=1: only the next save that reaches the store is held
+	heldCh    chan struct{} // the gate that one save is waiting on
+	failSet   map[int]bool
+	bgWG      sync.WaitGroup
+	stormStop chan struct{}
+	failNext  int32 // the next failNext saves of the mem back end are rejected (step "failnext")
+	tr        *Trace
+	rng       *rand.Rand
+	notifyCtr int64
+	notifyWG  sync.WaitGroup
+	ehHolds   []chan struct{}
+	consHold  chan struct{}
+	obsFail   map[[2]int]string
 	// firstDelivery: the first event of the session; its listener context is kept (an application that commits through a
 	// context it received earlier - "commitold")
 	firstDelivery *hx.Delivered
-	stopReaders []chan struct{}
-	readerWG    sync.WaitGroup
+	stopReaders   []chan struct{}
+	readerWG      sync.WaitGroup
 }
 
 // readMetrics scrapes GET /metrics (Prometheus text format).
@@ -876,9 +876,13 @@ func RunSession(spec *SessSpec) *Trace {
 					env.Log.Add(evlog.Rec{K: "ctl.observe", VB: st.VB, A: uu, B: uint64(st.N), Seq: uint64(st.St)})
 				case "waitrounds":
 					vbw, want := st.VB, st.N
-					base := len(env.Log.Filter(func(r evlog.Rec) bool { return r.K == "sim.tx" && r.Op == cbsim.OpObserveSeqno && r.VB == vbw && r.B == 0 }))
+					base := len(env.Log.Filter(func(r evlog.Rec) bool {
+						return r.K == "sim.tx" && r.Op == cbsim.OpObserveSeqno && r.VB == vbw && r.B == 0
+					}))
 					hx.WaitFor(8*time.Second, func() bool {
-						return len(env.Log.Filter(func(r evlog.Rec) bool { return r.K == "sim.tx" && r.Op == cbsim.OpObserveSeqno && r.VB == vbw && r.B == 0 }))-base >= want
+						return len(env.Log.Filter(func(r evlog.Rec) bool {
+							return r.K == "sim.tx" && r.Op == cbsim.OpObserveSeqno && r.VB == vbw && r.B == 0
+						}))-base >= want
 					})
 				}
 			}
